@@ -210,6 +210,8 @@ pub struct Scenario {
     pub max_link: usize,
     /// evaluate has_ready vs ready() on clones and offer bad messages on clones
     pub clone_checks: bool,
+    /// C20: offer every public RawNode entry point to a clone in every state
+    pub api_probe: bool,
     pub group_commit: bool,
     /// LEASE: these nodes (leader first) run in lock-step (LockTick / LockDeliver only)
     pub lock_majority: Vec<u8>,
@@ -249,6 +251,7 @@ impl Scenario {
             fault_types: vec![],
             max_link: 8,
             clone_checks: false,
+            api_probe: false,
             group_commit: false,
             lock_majority: vec![],
             mix_proposals: false,
@@ -303,6 +306,7 @@ pub enum Stat {
     TermRaises,
     LiveSlowSnapRuns,
     AppliedUnpersisted,
+    ApiProbes,
     _N,
 }
 pub const NSTAT: usize = Stat::_N as usize;
@@ -346,6 +350,7 @@ pub const STAT_NAMES: [&str; NSTAT] = [
     "term_raises",
     "live_slow_snapshot_suffix_runs",
     "entries_handed_out_before_persisted",
+    "api_probes_on_clones",
 ];
 
 pub struct Ctx {
